@@ -247,6 +247,7 @@ type Script struct {
 	// Keys[i] != "" marks an axiom instance that matters only where the key term occurs
 	Defs []string
 	Keys []string
+	facts map[string]bool
 }
 
 func NewScript() *Script { return &Script{declared: map[string]bool{}} }
@@ -283,9 +284,39 @@ func (s *Script) Assert(t Term) {
 	if t.S == "true" {
 		return
 	}
-	for _, c := range splitConj(t.S) {
+	for _, c := range s.resolveUnits(splitConj(t.S)) {
 		s.add("(assert "+c+")", "", "")
 	}
+}
+
+// resolveUnits: an implication whose antecedent has already been asserted verbatim as a fact is
+// replaced by its consequent (and split further); every part is remembered as a fact. Keeps facts
+// that are conditional on a proof-mode flag visible to the relevance slicer and the keyed axioms.
+func (s *Script) resolveUnits(parts []string) []string {
+	if s.facts == nil {
+		s.facts = map[string]bool{}
+	}
+	var out []string
+	for _, c := range parts {
+		for strings.HasPrefix(c, "(=> ") {
+			ante := readSexp(c[4:])
+			if ante == "" || !s.facts[ante] {
+				break
+			}
+			rest := strings.TrimSpace(c[4+len(ante) : len(c)-1])
+			if readSexp(rest) != rest {
+				break
+			}
+			c = rest
+		}
+		if strings.HasPrefix(c, "(and ") {
+			out = append(out, s.resolveUnits(splitConj(c))...)
+			continue
+		}
+		s.facts[c] = true
+		out = append(out, c)
+	}
+	return out
 }
 
 // splitConj splits nested top-level conjunctions "(and a (and b c))" into [a b c].
@@ -330,7 +361,7 @@ func (s *Script) AssertNamed(t Term, comment string) {
 	if t.S == "true" {
 		return
 	}
-	for _, c := range splitConj(t.S) {
+	for _, c := range s.resolveUnits(splitConj(t.S)) {
 		s.add("; "+comment+"\n(assert "+c+")", "", "")
 	}
 }
